@@ -318,14 +318,16 @@ namespace D2V.Fmt
 
 /-! ### keyword lower-casing is idempotent -/
 
-theorem normStr_idem (s : Str) : normStr (normStr s) = normStr s := by
+theorem normStr_idem (k : Bool) (s : Str) : normStr k (normStr k s) = normStr k s := by
   obtain ⟨q, raw, val⟩ := s
   cases q <;> simp only [normStr]
-  by_cases h : isReserved (lower raw) = true
-  · simp [h, isReserved_lower_fixed h]
+  by_cases h : (lowersHere k && isReserved (lower raw)) = true
+  · have hres : isReserved (lower raw) = true := by simp only [Bool.and_eq_true] at h; exact h.2
+    have hl : lowersHere k = true := by simp only [Bool.and_eq_true] at h; exact h.1
+    simp [h, hl, isReserved_lower_fixed hres, hres]
   · simp [h]
 
-theorem normPath_idem (p : Path) : normPath (normPath p) = normPath p := by
+theorem normPath_idem (k : Bool) (p : Path) : normPath k (normPath k p) = normPath k p := by
   simp [normPath, List.map_map, Function.comp_def, normStr_idem]
 
 theorem normScalar_idem (s : Scalar) : normScalar (normScalar s) = normScalar s := by
@@ -334,7 +336,7 @@ theorem normScalar_idem (s : Scalar) : normScalar (normScalar s) = normScalar s 
 theorem normHead_idem (h : KeyHead) : normHead (normHead h) = normHead h := by
   obtain ⟨amp, key, src, hops, eidx, ekey⟩ := h
   simp only [normHead, Option.map_map, List.map_map]
-  have hp : (normPath ∘ normPath) = normPath := by funext p; simp [normPath_idem]
+  have hp : (normPath true ∘ normPath true) = normPath true := by funext p; simp [normPath_idem]
   have hh : (normHop ∘ normHop) = normHop := by
     funext x; obtain ⟨sa, da, dst⟩ := x; simp [normHop, normPath_idem]
   simp [hp, hh]
